@@ -216,6 +216,11 @@ func init() {
 				rec(nil, 1)
 			}
 		},
+		extra: func(tier string, seed uint64, outdir string) (map[string]interface{}, []string) {
+			v := extraViolations
+			extraViolations = nil
+			return map[string]interface{}{"sort_interface": "every sort case also sorted through sort.Sort (Len/Less/Swap) and compared with FieldCursors.Sort()"}, v
+		},
 		exec: func(raw json.RawMessage) (res execResult, err error) {
 			var in c12In
 			if err = json.Unmarshal(raw, &in); err != nil {
@@ -279,7 +284,17 @@ func init() {
 				for i := range fcs {
 					before[i] = uint64(fcs[i].GetCurEntryID())
 				}
+				// the same set sorted through the sort.Interface methods (Len / Less / Swap) must come out in the same
+				// order of current entries as through Sort()
+				viaIface := append(be.FieldCursors{}, fcs...)
+				sort.Sort(viaIface)
 				fcs.Sort()
+				for i := range fcs {
+					if viaIface[i].GetCurEntryID() != fcs[i].GetCurEntryID() && len(extraViolations) < 3 {
+						extraViolations = append(extraViolations, fmt.Sprintf("sort.Sort(FieldCursors) and FieldCursors.Sort() disagree at position %d: entries before sorting %v", i, before))
+						break
+					}
+				}
 				out := make([]uint64, len(fcs))
 				for i := range fcs {
 					out[i] = uint64(fcs[i].GetCurEntryID())
